@@ -1,7 +1,8 @@
 (* Bridge/BrRuntime.v — the run-time helpers of the model (Sem/Prim.v: p_fetch, p_slice, p_in, p_length, p_negate,
    to_int, to_int64, to_float64, is_nil, make_range, fetch_fn, the float power of `**`) ARE the interpretation of
    the functions regenerated from /repo/vm/runtime.go (gen/GenRuntime.v, DSL and interpreter in Sem/PrimRules.v;
-   package reflect stays primitive: `rprim_apply`).
+   package reflect stays primitive: `rprim_apply`; `equal` of vm/helpers.go is the interpreter's parameter, here the
+   model's p_equal - equalSequences and `equal` itself are bridged in Bridge/BrRuntimeEq.v).
 
    One lemma `<f>_bridge` per Go function, so that a failure names the culprit: running the regenerated
    statements of f with the interpreter, every callee answering as its own lemma says, gives the model function.
@@ -28,8 +29,9 @@ Definition genruntime_all_recognised : bool :=
 Lemma genruntime_recognised : genruntime_all_recognised = true.
 Proof. vm_compute. reflexivity. Qed.
 
-(* the one function of runtime.go that is not read: it belongs to `equal` of the generated vm/helpers.go *)
-Lemma genruntime_not_read_is : genruntime_not_read = ["equalSequences"].
+(* every function of runtime.go is read (equalSequences, the part of `equal` of the generated vm/helpers.go that
+   lives in runtime.go, is bridged in Bridge/BrRuntimeEq.v) *)
+Lemma genruntime_not_read_is : genruntime_not_read = [].
 Proof. reflexivity. Qed.
 
 (* symbolic execution of the expressions of ONE statement: the interpreter over the (concrete) syntax *)
@@ -63,7 +65,7 @@ Variable nm : value -> Z.
 Variable call : string -> list gval -> gres (list gval).
 Variable F : nat.
 
-Notation run := (prun_fn fe nm call F).
+Notation run := (prun_fn fe nm p_equal call F).
 
 (* ---------------------------------------------------------------- the type switches *)
 Definition as_gnum (r : value) : gval := match r with VNum m => GNum m | _ => GNone end.
@@ -166,10 +168,10 @@ Proof.
   rewrite repeat_length.
   set (n := Z.to_nat (hi - lo + 1)).
   match goal with
-  | |- context [prange_loop fe nm call n 0 ?k ?B ?en] =>
+  | |- context [prange_loop fe nm p_equal call n 0 ?k ?B ?en] =>
     assert (L : forall m done i x4, i = Z.of_nat (List.length done) -> lo + i + Z.of_nat m <= hi + 1 ->
               exists x4',
-                prange_loop fe nm call m i k B
+                prange_loop fe nm p_equal call m i k B
                   [GNum (NInt KInt lo); GNum (NInt KInt hi); GNum (NInt KInt (hi - lo + 1)); GInts (done ++ repeat 0 m); x4]
                 = GOk (PNormal, [GNum (NInt KInt lo); GNum (NInt KInt hi); GNum (NInt KInt (hi - lo + 1));
                                  GInts (done ++ ints_from (lo + i) m); x4']))
@@ -545,9 +547,9 @@ Variable fe : fenv.
 Variable nm : value -> Z.
 Variable F : nat.
 
-Notation sem := (psem_of fe nm F runtime_funs).
+Notation sem := (psem_of fe nm p_equal F runtime_funs).
 
-Ltac open_fn d := rewrite (psem_of_S fe nm F runtime_funs _ _ _ d) by reflexivity.
+Ltac open_fn d := rewrite (psem_of_S fe nm p_equal F runtime_funs _ _ _ d) by reflexivity.
 
 Lemma toInt_is_model : forall d v, num_ok v = true -> sem (S d) "toInt" [GI v] = toInt_spec v.
 Proof. intros d v H. open_fn rt_toInt. apply toInt_bridge. exact H. Qed.
@@ -625,7 +627,7 @@ End Knot.
 (* ================================================================== the whole *)
 Definition model_runtime_is_source_statement : Prop :=
   forall (fe : fenv) (nm : value -> Z) (F d : nat),
-  let run := pinterp fe nm F (S (S d)) runtime_funs in
+  let run := pinterp fe nm p_equal F (S (S d)) runtime_funs in
      (forall from i nilsafe, named_ok from = true -> num_ok i = true -> str_key_ok i = true ->
         run "fetch" [GI from; GI i; GBool nilsafe] = of_outcome (p_fetch from i nilsafe) (fun r => [GI r]))
   /\ (forall arr from to, not_named arr = true -> num_ok from = true -> num_ok to = true ->
@@ -675,7 +677,7 @@ Qed.
    field), Sem/Prim.v has cases for named strings only in p_fetch and p_length.  Witnesses, by computation: *)
 Definition w_fe : fenv :=
   mkFenv (fun _ => None) (fun _ _ _ => Fail EUser) (fun _ _ _ => None) (fun _ _ => None) (fun x _ => x).
-Definition w_run := pinterp w_fe (fun _ => 0) 10 3 runtime_funs.
+Definition w_run := pinterp w_fe (fun _ => 0) p_equal 10 3 runtime_funs.
 
 Definition length_full_statement : Prop :=
   forall v, w_run "length" [GI v] = of_outcome (p_length v) (fun z => [gint z]).
